@@ -555,6 +555,67 @@ def main():
 
     fact("usmErrorPduTags", "List Nat", usm_error_pdus, "[]")
 
+    def usm_param_check():
+        """(classes, exact) of the item check in USMSecurityParameters.from_snmp_type:
+        `expected_types = (A, B, ...)` and a generator over zip(seq, expected_types) that applies
+        either `isinstance(item, type_)` or `type(item) is type_`"""
+        from puresnmp_plugins.security import usm
+
+        fn = func_ast(usm.USMSecurityParameters.from_snmp_type)
+        classes = None
+        for node in ast.walk(fn):
+            if isinstance(node, ast.Assign) and getattr(node.targets[0], "id", None) == "expected_types" and isinstance(node.value, ast.Tuple):
+                classes = [e.id for e in node.value.elts]
+        if not classes:
+            raise Untranslatable("expected_types not found")
+        kinds = set()
+        for node in ast.walk(fn):
+            if isinstance(node, ast.GeneratorExp) and "expected_types" in ast.unparse(node):
+                e = node.elt
+                if isinstance(e, ast.Call) and getattr(e.func, "id", None) == "isinstance" and ast.unparse(e.args[1]) == node.generators[0].target.elts[1].id:
+                    kinds.add("isinstance")
+                elif (
+                    isinstance(e, ast.Compare) and len(e.ops) == 1 and isinstance(e.ops[0], ast.Is)
+                    and ast.unparse(e.left) == f"type({node.generators[0].target.elts[0].id})"
+                    and ast.unparse(e.comparators[0]) == node.generators[0].target.elts[1].id
+                ):  # fmt: skip
+                    kinds.add("exact")
+                else:
+                    raise Untranslatable("item check: " + ast.unparse(e))
+        if len(kinds) != 1:
+            raise Untranslatable(f"item checks found: {sorted(kinds)}")
+        return classes, kinds == {"exact"}
+
+    fact("usmParamClasses", "List String", lambda: lean_list([lean_str(c) for c in usm_param_check()[0]]), "[]")
+    fact("usmParamExact", "Bool", lambda: "true" if usm_param_check()[1] else "false", "false")
+
+    def type_bases():
+        rows = set()
+        classes = list(X690Type.all())
+        names = {c.__name__ for c in classes}
+        for c in classes:
+            for b in c.__mro__[1:]:
+                if b.__name__ in names and b.__name__ != c.__name__:
+                    rows.add((c.__name__, b.__name__))
+        return lean_list([f"({lean_str(a)}, {lean_str(b)})" for a, b in sorted(rows)])
+
+    fact("typeBases", "List (String × String)", type_bases, "[]")
+
+    def no_default_ctor():
+        """registered classes `x690.decode` cannot instantiate (`cls()` raises TypeError, which
+        `X690Type.from_bytes` turns into X690Error): any TLV carrying their tag is undecodable"""
+        out = []
+        for c in X690Type.all():
+            try:
+                c()
+            except TypeError:
+                out.append(c.__name__)
+            except Exception:  # noqa: BLE001 - only the TypeError is converted by from_bytes
+                pass
+        return lean_list([lean_str(n) for n in sorted(out)])
+
+    fact("noDefaultCtor", "List String", no_default_ctor, "[]")
+
     def digest_placeholder():
         from puresnmp_plugins.security import usm
 
